@@ -87,6 +87,9 @@ func renderDoc(d Doc, fonts text.FontConfiguration) (*document.Document, error) 
 
 // renderTrace runs /repo's full pipeline on one document
 func renderTrace(d Doc, fonts text.FontConfiguration) (tr Trace) {
+	if d.Probe != "" {
+		return probeTrace(d)
+	}
 	o := render.Guard(func() {
 		rd, err := renderDoc(d, fonts)
 		if err != nil {
